@@ -743,6 +743,20 @@ def b_lat_model(ex, st, args, kw):
     return [Res("val", VRef(LAT(args[0].z), "Liveness"), st)]
 
 
+def b_get_state_model(ex, st, args, kw):
+    """
+    self.get_state(v, <Liveness class>) (lookup without creation): LAT(v) if the state has already been created, else None.  Under the LAT
+    abstraction whether it already exists is not determined by anything the analysis can rely on: modelled as an arbitrary choice.
+    (Not called by the unchanged tree; present so that a lookup-based variant of the callers stays inside the verified subset.)
+    """
+    from pyvc.engine import Res
+
+    out = []
+    for exists, bs in ex.split(st, st.fresh_bool("state-exists")):
+        out.append(Res("val", VRef(LAT(args[0].z), "Liveness") if exists else None, bs))
+    return out
+
+
 EXEC = z3.Function("EXEC", I, I)
 START = z3.Function("START", I, I)  # ProgramPoint.at_start_of_block(block)
 
@@ -799,7 +813,8 @@ class GetLatticeForSpec(Spec):
     modifies = ["dict#dom", "dict#val"]
 
     def __init__(self):
-        self.calls = {"self.get_lattice_element": GetLatticeSpec(), "self.add_dependency": AddDependencySpec()}
+        self.calls = {"self.get_lattice_element": GetLatticeSpec(), "self.add_dependency": AddDependencySpec(),
+                      "self.get_state": Builtin(b_get_state_model, "state lookup under the LAT abstraction: the state or None, arbitrarily")}
 
     def setup(self, st, inst):
         return {"self": VRef(st.declare_input("self", z3.Int("self")), "LivenessAnalysis"),
